@@ -200,7 +200,7 @@ impl Default for SupOpts {
             alloc_limit: 0,
             rlimit_as: 0,
             wall_cap_secs: 3600,
-            max_events: 20000,
+            max_events: 2000,
             quiet_stdout: false,
         }
     }
@@ -359,6 +359,7 @@ pub fn run_sharded<F: Fn(&mut WorkerCtx)>(
     let mut events = vec![];
     let mut restarts = 0;
     let mut capped = false;
+    let mut too_many = false;
     let mut children: Vec<Child> = (0..opts.nshards)
         .map(|s| spawn(s, opts, None, None, new_page(), &worker))
         .collect();
@@ -454,13 +455,16 @@ pub fn run_sharded<F: Fn(&mut WorkerCtx)>(
                     how,
                 });
                 if events.len() > opts.max_events {
-                    crate::common::machinery_error("too many worker crashes");
+                    // a tree on which (nearly) every case kills the worker: what has been seen
+                    // is more than enough for a verdict; stop here and report it as a capped run
+                    too_many = true;
+                } else {
+                    unsafe { libc::close(c.fd) };
+                    let page = c.page;
+                    children[s] = spawn(s, opts, Some(idx), None, page, &worker);
+                    restarts += 1;
+                    all_done = false;
                 }
-                unsafe { libc::close(c.fd) };
-                let page = c.page;
-                children[s] = spawn(s, opts, Some(idx), None, page, &worker);
-                restarts += 1;
-                all_done = false;
             }
         }
         if let Some(msg) = &fatal {
@@ -477,7 +481,7 @@ pub fn run_sharded<F: Fn(&mut WorkerCtx)>(
             }
             break;
         }
-        if t0.elapsed() > Duration::from_secs(opts.wall_cap_secs) {
+        if too_many || t0.elapsed() > Duration::from_secs(opts.wall_cap_secs) {
             capped = true;
             for c in children.iter_mut() {
                 if c.alive {
